@@ -37,7 +37,12 @@ def gen(ctx):
         ctx.hints.append({"kind": "translator", "detail": g.get("refused") or g.get("error"),
                           "line": g.get("refused_line")})
         return
-    ctx.notes.append(f"tables regenerated from /repo (cached={g['cached']}): {json.dumps(g['stats'])}")
+    ctx.notes.append(f"tables regenerated from /repo (cached={g['cached']}): " +
+                     json.dumps({k: v for k, v in g['stats']['pgns'].items() if k != 'refused'}) + json.dumps(g['stats']['db']))
+    for cat, name, why in g["stats"]["pgns"].get("refused", []):
+        if cat in ('dec', 'other'):
+            ctx.extra_obligations.append({"name": f"translation of {name}", "ok": False, "detail": why})
+            ctx.hints.append({"kind": "translator", "function": name, "detail": why})
     import os
     if not os.path.exists(os.path.join(G.TPL, "OblC01.v")):
         return
